@@ -133,6 +133,12 @@ func isReservedPythonKeyword(input string) bool {
 ******************************************************************************/
 
 func defaultValueForType(schemas ast.Schemas, typeDef ast.Type, importModule moduleImporter, defaultsOverrides *orderedmap.Map[string, any]) any {
+	return defaultValueForTypeRec(schemas, typeDef, importModule, defaultsOverrides, make(map[string]struct{}))
+}
+
+// following holds the references to disjunctions being followed: a disjunction can refer to
+// itself through its first branch (`D: D | string`).
+func defaultValueForTypeRec(schemas ast.Schemas, typeDef ast.Type, importModule moduleImporter, defaultsOverrides *orderedmap.Map[string, any], following map[string]struct{}) any {
 	if !typeDef.IsRef() && typeDef.Default != nil {
 		return typeDef.Default
 	}
@@ -143,7 +149,7 @@ func defaultValueForType(schemas ast.Schemas, typeDef ast.Type, importModule mod
 			return nil
 		}
 
-		return defaultValueForType(schemas, typeDef.AsDisjunction().Branches[0], importModule, nil)
+		return defaultValueForTypeRec(schemas, typeDef.AsDisjunction().Branches[0], importModule, nil, following)
 	case ast.KindRef:
 		ref := typeDef.AsRef()
 		referredPkg := ref.ReferredPkg
@@ -167,7 +173,12 @@ func defaultValueForType(schemas ast.Schemas, typeDef ast.Type, importModule mod
 
 			return raw(referredPkg + "." + objectName + "." + enumName)
 		} else if found && referredObj.Type.IsDisjunction() {
-			return defaultValueForType(schemas, referredObj.Type, importModule, nil)
+			if _, found := following[ref.String()]; found {
+				return nil
+			}
+			following[ref.String()] = struct{}{}
+
+			return defaultValueForTypeRec(schemas, referredObj.Type, importModule, nil, following)
 		}
 
 		var extraDefaults []string
